@@ -755,7 +755,7 @@ class Patched(object):
 
         def write_image(pio, pos, image, format=None, mode=None, min_value=None, max_value=None):
             inproc = current_proc() is not None
-            p = pio.tile_path(pos, format=format or pio._default_format)
+            p = pio.tile_path(pos, format=format or pio.get_default_format())
             if inproc and sched.io_points:
                 sched.op("wbegin", sched.rel(p))
             try:
